@@ -114,7 +114,13 @@ impl<'a, 'b> Generator<'a, 'b> {
 
                 IR::Neg(t, a) => ii!(self, t, "(-{})", a),
 
-                IR::Str(t, s) => iis!(self, t, "\"{}\"", s),
+                // A string may span lines - a Lua string in quotes may not.
+                IR::Str(t, s) => iis!(
+                    self,
+                    t,
+                    "\"{}\"",
+                    s.replace('\n', "\\n").replace('\r', "\\r")
+                ),
                 // A literal too large for a float is infinite - `{:?}` would write the name `inf`.
                 IR::Float(t, f) if f.is_infinite() => iis!(self, t, "math.huge"),
                 IR::Float(t, f) => iis!(self, t, "{:?}", f),
